@@ -38,7 +38,9 @@ def run(chk):
     while done < nprog and tries < nprog * 4:
         tries += 1
         m = tries % 4
-        if m in (0, 1):
+        if tries <= 2:
+            prog, nv = repeated_arg_program(rng, tries)      # always part of the sample: the same array in two argument positions
+        elif m in (0, 1):
             prog, nv = programs.structured(rng)
         elif m == 2:
             prog, nv = fanin_program(rng)
@@ -60,12 +62,15 @@ def run(chk):
         if not projs:
             continue
         done += 1
-        cands = sorted({m_ + d for m_ in (rng.sample(projs, k=min(3, len(projs)))) for d in (-1, 0, 1)} | {max(projs) + 1})
+        pick = projs if prog.get("family") == "repeated-arg" else rng.sample(projs, k=min(3, len(projs)))
+        cands = sorted({m_ + d for m_ in pick for d in (-1, 0, 1)} | {max(projs) + 1})
         for allowed in cands:
             if allowed <= reserved:
                 continue
             label, og, of, forced = rng.choice([("default", True, None, False), ("default", True, None, False),
                                                 ("off", False, None, False), ("fuse_all", True, fuse_all_optimize_dag, True)])
+            if prog.get("family") == "repeated-arg":
+                label, og, of, forced = ("default", True, None, False)      # the clause at stake is DefaultStaysInBudget
             entry = rng.choice(["compute_method", "compute", "store", "to_zarr"])
             with traced.Session() as s:
                 try:
@@ -133,6 +138,21 @@ def fanin_program(rng):
         steps += [dict(op="negative", args=[0]), dict(op="add", args=[6, 7])]
         outs = [8]
     prog = dict(inputs=inputs, steps=steps, outs=outs, family="fan-in")
+    return prog, programs.Interp(np, False).run(prog)
+
+
+def repeated_arg_program(rng, k):
+    """c = g(b, b) with b = f(x, y): one predecessor operation feeds two argument positions, so the fused task holds b's inputs
+    and both copies' worth of accounting; budgets are taken at every projection of the plain and the roomy-fused plan +-1."""
+    r, c = [(20, 20), (16, 24)][k % 2]
+    ch = [[r, c], [r // 2, c]][k % 2]
+    inputs = [dict(shape=[r, c], chunks=ch, dtype="float64", seed=i, pattern="lin", src="asarray") for i in range(2)]
+    steps = [dict(op="add", args=[0, 1]), dict(op="multiply", args=[2, 2])]
+    outs = [3]
+    if k % 2 == 0:
+        steps = [dict(op="negative", args=[0]), dict(op="add", args=[2, 2]), dict(op="negative", args=[3])]
+        outs = [4]
+    prog = dict(inputs=inputs, steps=steps, outs=outs, family="repeated-arg")
     return prog, programs.Interp(np, False).run(prog)
 
 
